@@ -56,6 +56,8 @@ def _same(a, b, depth=0):
     callables = ('function', 'method', 'Closure', 'BoundMethod', 'builtin_function_or_method', 'partial')
     if na in callables or nb in callables:
         return (na in callables) == (nb in callables)
+    if {na, nb} == {'generator', 'GenObj'}:
+        return True        # a generator that has not been started: CPython's object and the interpreter's (an engine object)
     if na != nb:
         return False
     if depth > 3:
